@@ -358,6 +358,25 @@ pub fn key_pair_jobs(need: Need) -> Vec<Job> {
   jobs
 }
 
+/// NR4: an absorbing chord whose output contains a PHYSICAL key of the alphabet, next to a second single-key mapping in
+/// every repeat mode, with four keys held: the chord's output key can be pressed physically while the chord is in effect,
+/// and is handed back to pass-through (no event) when the second trigger drops the absorbing mapping.
+pub fn handback_jobs(need: Need) -> Vec<Job> {
+  use crate::keys::{Mapping, Repeat};
+  use KeyCode::*;
+  let mut jobs = vec![];
+  for md in [LEFTSHIFT, CAPSLOCK] { for (i1, o1) in [vec![B], vec![LEFTSHIFT, B], vec![B, J], vec![md, B]].iter().enumerate() { for u in [K, B] { for (i2, o2) in [vec![X], vec![LEFTCTRL, X], vec![]].iter().enumerate() { for rp in 0..3u8 { for swap in [false, true] {
+    if i1 == 1 && md == LEFTSHIFT { continue; } // same as [md, B]
+    let repeat = match rp { 0 => Repeat::Normal, 1 => Repeat::Disabled, _ => Repeat::Special { keys: vec![F24, LEFTCTRL], delay_ms: 100, interval_ms: 10 } };
+    let m1 = Mapping { from: vec![md, A], to: o1.clone(), repeat: Repeat::Normal, absorbing: vec![md] };
+    let m2 = Mapping { from: vec![u], to: o2.clone(), repeat, absorbing: vec![] };
+    let layout = Layout { mappings: if swap { vec![m2, m1] } else { vec![m1, m2] } };
+    if !layout_ok(&layout, need) { continue; }
+    jobs.push(Job::Fixed { name: format!("NR4-{:?}-{}-{:?}-{}-{}-{}", md, i1, u, i2, rp, swap), layout, alphabet: vec![md, A, B, J, K], n: 4, alpha_rule: "the chord modifier, A, the physical output keys B and J, the second trigger K" });
+  } } } } } }
+  jobs
+}
+
 /// S4/S5: four or five mappings ending in the SAME key A (triggers drawn with repetition from [A], [CAPSLOCK,A],
 /// [LEFTSHIFT,A], [B,A]), each with its own output key: precedence among many candidates, re-defined triggers.
 pub fn same_final_jobs(need: Need, k: usize) -> Vec<Job> {
@@ -403,14 +422,12 @@ pub fn every_key_jobs(need: Need) -> Vec<Job> {
   jobs
 }
 
-pub fn run(ctx: &Ctx) -> Outcome {
-  let id = ctx.id.as_str();
-  // AALL (not a registered check): the whole-corpus plan with the predicates of ALL mapper properties at once -
-  // a smoke test that costs one exploration instead of ten; its violations are printed per property
+/// the job list of one property's plan (fixed corpus + generated families + the hand-shaped families), with its description
+fn build_jobs(id: &str, tier: Tier) -> (Plan, Vec<Job>, usize, Vec<Value>, Vec<Value>) {
   let all_mode = id == "AALL";
-  let bit = if all_mode { P_ALL } else { prop_bit(id) };
-  let plan = plan_for(if all_mode { "C06" } else { id }, ctx.tier);
-  let mut jobs = fixed_jobs(ctx.tier, plan.need);
+  let plan = plan_for(if all_mode { "C06" } else { id }, tier);
+  let ctx_tier = tier;
+  let mut jobs = fixed_jobs(tier, plan.need);
   let n_fixed = jobs.len();
   let mut rules: Vec<Value> = vec![];
   for j in &jobs { if let Job::Fixed { name, alphabet, n, alpha_rule, .. } = j { rules.push(json!({"layout": name, "alphabet_size": alphabet.len(), "alphabet": alpha_rule, "bound_keys_held": n})); } }
@@ -427,7 +444,7 @@ pub fn run(ctx: &Ctx) -> Outcome {
   }
   if plan.need == Need::Any || plan.need == Need::NonAbsorbing {
     let mut sj = same_final_jobs(plan.need, 4);
-    if ctx.tier == Tier::Thorough || matches!(id, "C03" | "C04") { sj.extend(same_final_jobs(plan.need, 5)); }
+    if ctx_tier == Tier::Thorough || matches!(id, "C03" | "C04") { sj.extend(same_final_jobs(plan.need, 5)); }
     gen_rules.push(json!({"family": "S4/S5", "what": "four (and five) mappings ending in the same key A, triggers drawn with repetition from [A],[CAPSLOCK,A],[LEFTSHIFT,A],[B,A], distinct outputs", "layouts": sj.len(), "bound_keys_held": 4, "alphabet": ["A", "B", "CAPSLOCK", "LEFTSHIFT"]}));
     jobs.extend(sj);
   }
@@ -452,8 +469,33 @@ pub fn run(ctx: &Ctx) -> Outcome {
     gen_rules.push(json!({"family": "K1-K4", "what": "for every key code k the tool knows (all but the four fixed keys of the forms): K1 A->[A] Disabled, C->[k]; K2 A->[A] Disabled, k->[D]; K3 A->[A] Disabled, [k,C]->[D] absorbing [k]; K4 k->[k] Special{[LEFTSHIFT,k],100,10}, C->[C]; alphabet = the three keys of the form; forms the property's quantifier excludes are left out", "layouts": kj.len(), "bound_keys_held": 3}));
     jobs.extend(kj);
   }
+  {
+    let nj = handback_jobs(plan.need);
+    gen_rules.push(json!({"family": "NR4", "what": "[M,t]->o1 absorbing [M] (M in {LEFTSHIFT,CAPSLOCK}; o1 in {[B],[LEFTSHIFT,B],[B,J],[M,B]} - output keys that are PHYSICAL keys of the alphabet) next to a second mapping u->o2 (u in {K, B}; o2 in {[X],[LEFTCTRL,X],[]}; Normal / Disabled / Special), both orders; alphabet M, t=A, B, J, K; four keys held: a mapping's output key pressed physically, then handed back to pass-through when another trigger drops the absorbing mapping", "layouts": nj.len(), "bound_keys_held": 4}));
+    jobs.extend(nj);
+  }
   // big fixed layouts first so that they do not become the tail
   jobs.sort_by_key(|j| match j { Job::Fixed { alphabet, n, .. } => 0usize.wrapping_sub(alphabet.len().pow(*n as u32)), _ => usize::MAX / 2 });
+  (plan, jobs, n_fixed, rules, gen_rules)
+}
+
+/// C14's mapper half on the generated families: the whole-corpus plan explored with no predicate at all, only for panics
+pub fn panic_sweep(ctx: &Ctx) -> (Agg, usize) {
+  let (_plan, jobs, _n_fixed, _rules, gen_rules) = build_jobs("C01", ctx.tier);
+  // the large fixed layouts are C01's business (a panic there stops C01 as a machinery failure naming C14); here: everything small
+  let jobs: Vec<Job> = jobs.into_iter().filter(|j| match j { Job::Fixed { alphabet, n, .. } => alphabet.len().pow(*n as u32) <= 20_000, _ => true }).collect();
+  let cap = ctx.tier.pick(6_000_000usize, 40_000_000usize);
+  let agg = run_jobs(ctx, &jobs, 0, 0, cap);
+  (agg, gen_rules.len())
+}
+
+pub fn run(ctx: &Ctx) -> Outcome {
+  let id = ctx.id.as_str();
+  // AALL (not a registered check): the whole-corpus plan with the predicates of ALL mapper properties at once -
+  // a smoke test that costs one exploration instead of ten; its violations are printed per property
+  let all_mode = id == "AALL";
+  let bit = if all_mode { P_ALL } else { prop_bit(id) };
+  let (plan, jobs, n_fixed, rules, gen_rules) = build_jobs(id, ctx.tier);
   let cap = ctx.tier.pick(6_000_000usize, 40_000_000usize);
   let agg = run_jobs(ctx, &jobs, bit, if all_mode { 0 } else { bit }, cap);
 
